@@ -24,7 +24,13 @@ def select(container, ck, ln, seq, tier, rnd):
         if ln == 5:
             return True if ck in ("hb_locked", "hba_stack_mlock") else len(seq) <= 1
         return ck in ("hb_locked", "hba_stack_mlock", "hba_stack_ro") and len(seq) <= 1
-    return True
+    # thorough: every depth<=2 sequence for every constructor and length; depth 3 at the page+1 length (5) for all
+    # constructors and at the 1-byte / two-page+1 lengths for the two main ones (the full depth-3 product is 5320 programs, ~4 h)
+    if len(seq) <= 2:
+        return True
+    if ln == 5:
+        return True
+    return ln in (1, 9) and ck in ("hb_locked", "hba_stack_mlock")
 
 
 def suites(tier, seed):
